@@ -632,6 +632,13 @@ func (n node) compact(lo uint64) int {
 	zeroOut(n[keyOffset(left):keyOffset(right)])
 	n.setNumKeys(left)
 
+	// The max key always stays, because the parent routes by it. If its value is
+	// below lo it must not be served any more though: a zero value marks a bogus
+	// entry (see node.get and Tree.IterateKV).
+	if left > 0 && n.key(left-1) == mk && n.val(left-1) < lo {
+		n.setAt(valOffset(left-1), 0)
+	}
+
 	// If the only key we have is the max key, and its value is less than lo, then we can indicate
 	// to the caller by returning a zero that it's OK to drop the node.
 	if left == 1 && n.key(0) == mk && n.val(0) < lo {
